@@ -134,13 +134,13 @@ func c09Cases(c runCfg) ([]*scratch.Pkg, []string, map[string]interface{}) {
 			np := 1 + rng.Intn(5)
 			for k := 0; k < np; k++ {
 				in := []string{"query", "query", "header"}[rng.Intn(3)]
-				name := fmt.Sprintf("q%d%s", k, []string{"", "-x", "_y", "Id"}[k%4])
+				name := fmt.Sprintf("q%d%s", k, []string{"", "-x", "_y", "Id", ".z", "_user_id", "URL"}[rng.Intn(7)])
 				sc := paramSchemas[rng.Intn(len(paramSchemas))]()
 				if rng.Intn(5) == 0 {
 					sc.Nullable = true
 				}
 				if in == "header" {
-					name = "X-H" + fmt.Sprint(k) + []string{"", "-Val", "-id"}[k%3]
+					name = "X-H" + fmt.Sprint(k) + []string{"", "-Val", "-id", "-Uuid", "-Api-Url", "-Ids"}[rng.Intn(6)]
 				} else if rng.Intn(3) == 0 {
 					sc = &dialect.Schema{Type: "array", Items: sc}
 					sc.Items.Nullable = false
